@@ -2,5 +2,5 @@
 EXTENDS RefForms
 MCSheets == {"S", "T u"}
 MCFormsAll == {"cell", "range", "inter", "union", "multi", "name1", "name2",
-               "rowcol", "index", "ifref", "ucol", "urow", "cse"}
+               "rowcol", "index", "ifref", "ucol", "urow", "cse", "mix"}
 ====
